@@ -7,7 +7,7 @@
 //!            reader is decided separately (poulpy-core wrappers), a streaming reader cannot undo them;
 //!  * Ok   => the stream announced exactly as many elements as the receiver has (a shorter object
 //!            must be refused, not read into the first slots with the others left stale).
-use poulpy_bin_fhe::blind_rotation::{BlindRotationKey, BlindRotationKeyLayout, CGGI};
+use poulpy_bin_fhe::blind_rotation::{BlindRotationKey, BlindRotationKeyCompressed, BlindRotationKeyLayout, CGGI};
 use poulpy_core::layouts::{Base2K, Degree, Dnum, GGSWInfos, GLWEInfos, LWEInfos, Rank, TorusPrecision};
 use poulpy_core::Distribution;
 use poulpy_hal::layouts::ReaderFrom;
@@ -38,6 +38,34 @@ pub fn brk_read<const NKEYS: usize, const SLEN: usize>() {
             t += 1;
         }
         assert!(len == n0 as u64, "BlindRotationKey::read_from accepted a stream that announces another number of elements than the receiver holds");
+    }
+    vsym::reached();
+}
+
+/// Same statement for the seed-compressed key (`key_compressed.rs`; its element reader is
+/// `GGSWCompressed::read_from`).
+pub fn brkc_read<const NKEYS: usize, const SLEN: usize>() {
+    let infos = BlindRotationKeyLayout { n_glwe: Degree(2), n_lwe: Degree(NKEYS as u32), base2k: Base2K(17), k: TorusPrecision(34), dnum: Dnum(1), rank: Rank(1) };
+    let mut key: BlindRotationKeyCompressed<Vec<u8>, CGGI> = BlindRotationKeyCompressed::alloc(&infos);
+    let stream = vsym::arr_u8::<SLEN>();
+    let mut rd: &[u8] = &stream[..];
+    let d0 = *key.verif_dist();
+    let n0 = key.verif_keys().len();
+    let r = key.read_from(&mut rd);
+    let ok = r.is_ok();
+    core::mem::forget(r);
+    assert!(key.verif_keys().len() == n0, "number of elements changed");
+    if !ok {
+        assert!(same_dist(key.verif_dist(), &d0), "BlindRotationKeyCompressed::read_from failed but changed the recorded distribution");
+    } else {
+        assert!(SLEN >= 16, "Ok on a stream shorter than the header");
+        let mut len = 0u64;
+        let mut t = 0;
+        while t < 8 {
+            len |= (stream[8 + t] as u64) << (8 * t);
+            t += 1;
+        }
+        assert!(len == n0 as u64, "BlindRotationKeyCompressed::read_from accepted a stream that announces another number of elements than the receiver holds");
     }
     vsym::reached();
 }
